@@ -973,12 +973,21 @@ where
 
         let file_id = data.get_file_by_id(file)?;
 
+        // The free-space record is brought up to date whether or not this
+        // handle has anything to write: clusters are also allocated and freed
+        // by calls that leave no handle dirty (truncating open, delete, mkdir,
+        // a directory that grows).
+        let volume_idx = data.get_volume_by_id(data.open_files[file_id].raw_volume)?;
+        match &mut data.open_volumes[volume_idx].volume_type {
+            VolumeType::Fat(fat) => {
+                debug!("Updating FAT info sector");
+                fat.update_info_sector(&mut data.block_cache)?;
+            }
+        }
+
         if data.open_files[file_id].dirty {
-            let volume_idx = data.get_volume_by_id(data.open_files[file_id].raw_volume)?;
             match &mut data.open_volumes[volume_idx].volume_type {
                 VolumeType::Fat(fat) => {
-                    debug!("Updating FAT info sector");
-                    fat.update_info_sector(&mut data.block_cache)?;
                     debug!("Updating dir entry {:?}", data.open_files[file_id].entry);
                     if data.open_files[file_id].entry.size != 0 {
                         // If you have a length, you must have a cluster
